@@ -90,6 +90,8 @@ def real_name(a):
     second instance gets such a name."""
     k = int(a[1:])
     app = ('web-svc_%s.eu' % a) if k % 2 == 0 else a
+    if k % 3 == 0:
+        app = '%s-2' % a          # shard style: the name itself ends in a numeric dash segment
     return 'proid.%s#%010d' % (app, k)
 
 
@@ -97,6 +99,8 @@ def model_name(real):
     app = real.split('#')[0].split('.', 1)[1]
     if app.startswith('web-svc_') and app.endswith('.eu'):
         app = app[len('web-svc_'):-len('.eu')]
+    elif app.endswith('-2'):
+        app = app[:-2]
     return app
 
 
@@ -424,9 +428,14 @@ class Node:
             app_abort.flag_aborted(data, why=app_abort.AbortedReason.UNKNOWN)
         elif marker == 'oom':
             utils.touch(os.path.join(data, 'oom'))     # services/cgroup_service.py
+        elif marker == 'none':
+            if (a, g) in self.tomb:
+                return None
+            # the container's service is killed: a tombstone, none of the markers
         else:
             raise tlc.MachineryError('marker %r' % marker)
-        self.tomb.append((a, g))          # the service's exit tombstone, id = instance
+        if (a, g) not in self.tomb:
+            self.tomb.append((a, g))      # the service's exit tombstone, id = instance
         return 'ContainerFinishes', [a, g, marker]
 
     def op_MonitorCleanup(self, a, g, late=False):
@@ -582,7 +591,7 @@ def enabled_ops(post, instances, maxgen, gens, late, svc=False, crash=False):
         ops.append((1.2, 'ReadyOff', []))
     for a, c in run.items():
         if c in apps and not set(apps[c]) & set(FIN_MARKERS) and c[0] == a:
-            for m in FIN_MARKERS:
+            for m in FIN_MARKERS + ('none',):
                 ops.append((0.4, 'ContainerFinishes', [c[0], c[1], m]))
     for t in post['tomb']:
         c = (t['i'], t['g'])
